@@ -41,6 +41,8 @@ Require Import Ctpg.Proofs.ContainersBits.
 Require Import Ctpg.Proofs.ContainersVec.
 Require Import Ctpg.Proofs.ContainersSort.
 Require Import Ctpg.Proofs.UtilsCorrect.
+Require Import Ctpg.Model.Driver.
+Require Import Ctpg.Proofs.UtilsDriverLink.
 
 (* skip_whitespace asks utils::find_char(byte, table): a NUL byte is never found in a NUL-terminated table - embedded NULs are not skipped *)
 Theorem C04_nul_is_never_whitespace :
@@ -59,3 +61,9 @@ Theorem C04_find_char_reads_nothing_behind_the_terminator :
   forall (c : nat) (s rest : list nat) (i : nat), nul_free s -> find_char c (s ++ 0 :: rest) i = Ok (if c =? 0 then None else index_of c s i).
 Proof. exact @find_char_spec. Qed.
 Print Assumptions C04_find_char_reads_nothing_behind_the_terminator.
+
+(* LINK: the driver model's is_ws (membership in the list the options select) is exactly 'find_char(byte, NUL-terminated table) found something', for every byte and every option set - so the theorems about skipping (C04, C10, C18) speak about the real test *)
+Theorem C04_the_driver_models_whitespace_test_is_the_real_one :
+  forall (o : options) (b : nat) (rest : list nat), is_ws o b = true <-> (exists k : nat, find_char b (ws_table o ++ 0 :: rest) 0 = Ok (Some k)).
+Proof. exact @is_ws_is_find_char. Qed.
+Print Assumptions C04_the_driver_models_whitespace_test_is_the_real_one.
